@@ -51,7 +51,7 @@ def tableRefs (refs : List Str) (t : List (Char × Str)) : Bool :=
       | c :: tl => c == '&' && !tl.contains '&'
       | [] => false) && refs.contains r.2)
 
-theorem lookup_mem {t : List (Char × Str)} {c : Char} {esc : Str} (h : t.lookup c = some esc) :
+theorem htmlLookup_mem {t : List (Char × Str)} {c : Char} {esc : Str} (h : t.lookup c = some esc) :
     (c, esc) ∈ t := by
   induction t with
   | nil => simp at h
@@ -76,7 +76,7 @@ theorem escapeWith_refsOnly {refs : List Str} {t : List (Char × Str)} (ht : tab
       intro e; subst e; simp [hl] at hamp
     simp [refsOnly, hc]
   | some esc =>
-    have hrow := hrows (c, esc) (lookup_mem hl)
+    have hrow := hrows (c, esc) (htmlLookup_mem hl)
     simp only at hrow
     cases esc with
     | nil => simp at hrow
